@@ -1,0 +1,11 @@
+//go:build verif
+
+package bcl
+
+// Verification-only (build tag "verif"): the formatter entry point the command
+// line uses, internal/bcl.Fmt (a wrapper of parser.Fmt). Adds no behaviour.
+
+import ibcl "github.com/pentops/j5/internal/bcl"
+
+// FmtPublic is internal/bcl.Fmt.
+func FmtPublic(input string) (string, error) { return ibcl.Fmt(input) }
